@@ -40,6 +40,26 @@ type c12owStore struct {
 
 var errC12OW = errors.New("c12: database is locked (injected)")
 
+// the case's key letters are full (namespace, key) pairs that differ in exactly one component — and one pair whose plain
+// concatenation equals another's; the store fake files an operation under the letter of the FULL pair it was given
+var c12owPairs = map[string][2]string{
+	"a": {"ipoe_sessions", "s1"},
+	"b": {"ipoe_sessions", "s2"},  // key differs
+	"c": {"pppoe_sessions", "s1"}, // namespace differs
+	"d": {"ipoe_session", "ss1"},  // namespace+key concatenate to the same string as a
+}
+
+func c12owNS(l string) string  { return c12owPairs[l][0] }
+func c12owKey(l string) string { return c12owPairs[l][1] }
+func c12owLetter(ns, key string) string {
+	for l, p := range c12owPairs {
+		if p[0] == ns && p[1] == key {
+			return l
+		}
+	}
+	return "?" + ns + "/" + key
+}
+
 func (s *c12owStore) arrive(key, desc string) *c12owOp {
 	op := &c12owOp{key: key, desc: desc, release: make(chan bool, 1), gid: c12owGID()}
 	s.mu.Lock()
@@ -52,6 +72,7 @@ func (s *c12owStore) arrive(key, desc string) *c12owOp {
 }
 
 func (s *c12owStore) Put(_ context.Context, ns, key string, value []byte) error {
+	key = c12owLetter(ns, key)
 	op := s.arrive(key, "P"+string(value))
 	ok := <-op.release
 	s.mu.Lock()
@@ -68,6 +89,7 @@ func (s *c12owStore) Put(_ context.Context, ns, key string, value []byte) error 
 }
 
 func (s *c12owStore) Delete(_ context.Context, ns, key string) error {
+	key = c12owLetter(ns, key)
 	op := s.arrive(key, "D")
 	ok := <-op.release
 	s.mu.Lock()
@@ -163,7 +185,7 @@ func c12owCase(ops []string) string {
 		case "pa":
 			i := len(res)
 			res = append(res, "-")
-			w.PutAsync(ctx, "ns", a[1], []byte(a[2]), func(error) { set(i, "E") })
+			w.PutAsync(ctx, c12owNS(a[1]), c12owKey(a[1]), []byte(a[2]), func(error) { set(i, "E") })
 			// the write is at the store at once when it is its turn
 			c12owWait(2*time.Millisecond, func() bool { return st.at(a[1]) != nil })
 		case "ps", "del":
@@ -176,9 +198,9 @@ func c12owCase(ops []string) string {
 				gidc <- c12owGID()
 				var err error
 				if a[0] == "ps" {
-					err = w.Put(ctx, "ns", a[1], []byte(a[2]))
+					err = w.Put(ctx, c12owNS(a[1]), c12owKey(a[1]), []byte(a[2]))
 				} else {
-					err = w.Delete(ctx, "ns", a[1])
+					err = w.Delete(ctx, c12owNS(a[1]), c12owKey(a[1]))
 				}
 				if err != nil {
 					set(i, "err")
@@ -200,7 +222,7 @@ func c12owCase(ops []string) string {
 				// the slot whose turn it is: the key's bookkeeping entry and its serving counter (this harness is
 				// inside package opdb).  A repetition is "inside the slot" only if it reaches the store while this
 				// very entry still serves this very sequence number, i.e. before the turn was handed on.
-				id := orderedID("ns", a[1])
+				id := orderedID(c12owNS(a[1]), c12owKey(a[1]))
 				w.mu.Lock()
 				k0 := w.keys[id]
 				var sv0 uint64
